@@ -73,8 +73,8 @@ def _expect_raise(H, tag, fn):
 def rectangle_body(H, V):
     from coxeter.shapes import ConvexPolygon
 
-    a, b, tx, ty = V["a"], V["b"], V["tx"], V["ty"]
-    verts = [[tx, ty, 0 * a], [tx + a, ty, 0 * a], [tx + a, ty + b, 0 * a], [tx, ty + b, 0 * a]]
+    a, b, tx, ty, tz = V["a"], V["b"], V["tx"], V["ty"], V["tz"]
+    verts = [[tx, ty, tz], [tx + a, ty, tz], [tx + a, ty + b, tz], [tx, ty + b, tz]]  # plane z = tz: does not contain the origin in general
     p = ConvexPolygon(H.arr(verts))
     vs = [list(v) for v in p.vertices]
     _circum_claims(H, "rectangle.circumcircle", p.circumcircle, vs)
@@ -86,20 +86,20 @@ def rectangle_body(H, V):
         _expect_raise(H, "rectangle.incircle", lambda: p.incircle)
     # centred balls
     cb = p.minimal_centered_bounding_circle
-    H.claim_all_eq("rectangle.centred_bounding.centre", cb.centroid, [tx + a / 2, ty + b / 2, 0])
+    H.claim_all_eq("rectangle.centred_bounding.centre", cb.centroid, [tx + a / 2, ty + b / 2, tz])
     H.claim_eq("rectangle.centred_bounding.radius^2", cb.radius ** 2, (a * a + b * b) / 4)
     ci = p.maximal_centered_bounded_circle
     small = a if a <= b else b
     H.claim_eq("rectangle.centred_bounded.radius", ci.radius, small / 2)
-    H.claim_all_eq("rectangle.centred_bounded.centre", ci.centroid, [tx + a / 2, ty + b / 2, 0])
+    H.claim_all_eq("rectangle.centred_bounded.centre", ci.centroid, [tx + a / 2, ty + b / 2, tz])
 
 
 def kite_body(H, V):
     """Kite (0,0),(p,-q),(w,0),(p,q): always tangential; cyclic iff p*(w-p) == q*q."""
     from coxeter.shapes import ConvexPolygon
 
-    p_, q, w = V["p"], V["q"], V["w"]
-    verts = [[0 * q, 0 * q, 0 * q], [p_, -q, 0 * q], [w, 0 * q, 0 * q], [p_, q, 0 * q]]
+    p_, q, w, tz = V["p"], V["q"], V["w"], V["tz"]
+    verts = [[0 * q, 0 * q, tz], [p_, -q, tz], [w, 0 * q, tz], [p_, q, tz]]
     k = ConvexPolygon(H.arr(verts))
     vs = [list(v) for v in k.vertices]
     _in_polygon_claims(H, "kite.incircle", k.incircle, vs, list(k.normal))
@@ -113,7 +113,13 @@ def kite_body(H, V):
 def triangle_body(H, V):
     from coxeter.shapes import Polygon
 
-    verts = [[V.get("x%d" % i, H.num([0, 4, 1][i])), V.get("y%d" % i, H.num([0, 0, 3][i])), 0 * V["x2"]] for i in range(3)]
+    flat = [[V.get("x%d" % i, H.num([0, 4, 1][i])), V.get("y%d" % i, H.num([0, 0, 3][i])), 0 * V["x2"]] for i in range(3)]
+    if "tz" in V:
+        # tilted plane (rational rotation) at a free offset along z: the plane does not contain the origin
+        R = O.rot_from_quat(1, 2, 2, 0)
+        verts = [[c + (V["tz"] if k == 2 else 0) for k, c in enumerate(O.matvec(R, v))] for v in flat]
+    else:
+        verts = flat
     p = Polygon(H.arr(verts), test_simple=False)
     vs = [list(v) for v in p.vertices]
     _circum_claims(H, "triangle.circumcircle", p.circumcircle, vs)
@@ -295,9 +301,9 @@ def obligations(tier, seed):
     def unit(*ns):
         return lambda V: [c for n in ns for c in (V[n] >= F(1, 2), V[n] <= 4)]
 
-    add("C13/rectangle", ["a", "b", "tx", "ty"], rectangle_body, positive=["a", "b"], pre=unit("a", "b"), first=dict(a=F(4), b=F(1), tx=F(2), ty=F(-3)),
-        bounds="rectangle a x b at a free offset: 4 free reals; incircle exists iff a = b (1 % margin)")
-    add("C13/kite", ["p", "q", "w"], kite_body, positive=["p", "q", "w"], pre=lambda V: [V["w"] >= V["p"] + F(1, 2)] + unit("p", "q", "w")(V), first=dict(p=F(1), q=F(2), w=F(4)),
+    add("C13/rectangle", ["a", "b", "tx", "ty", "tz"], rectangle_body, positive=["a", "b"], pre=unit("a", "b"), first=dict(a=F(4), b=F(1), tx=F(2), ty=F(-3), tz=F(5)),
+        bounds="rectangle a x b at a free offset incl. out of the xy-plane: 5 free reals; incircle exists iff a = b (1 % margin)")
+    add("C13/kite", ["p", "q", "w", "tz"], kite_body, positive=["p", "q", "w"], pre=lambda V: [V["w"] >= V["p"] + F(1, 2)] + unit("p", "q", "w")(V), first=dict(p=F(1), q=F(2), w=F(4), tz=F(-3)),
         bounds="kite (0,0),(p,-q),(w,0),(p,q): 3 free reals; always tangential, cyclic iff p(w-p) = q^2 (2 % margin)")
     import math
 
@@ -313,6 +319,8 @@ def obligations(tier, seed):
             bounds="triangle with all 6 coordinates free (non-degenerate)", budget=2500)
     add("C13/triangle.one_free_vertex", ["x2", "y2"], triangle_body, pre=lambda V: [V["y2"] != 0], first=dict(x2=F(1), y2=F(3)),
         bounds="triangle (0,0),(4,0),(x2,y2) with the third vertex free (2 reals, off the base line)")
+    add("C13/triangle.tilted_lifted", ["x2", "y2", "tz"], triangle_body, pre=lambda V: [V["y2"] != 0], first=dict(x2=F(1), y2=F(3), tz=F(4)),
+        bounds="the same triangle in a tilted plane (rational rotation) lifted by a free z offset: the plane does not contain the origin")
     add("C13/box", ["a", "b", "c", "tx", "ty", "tz"], box_body, positive=["a", "b", "c"], pre=unit("a", "b", "c"), first=dict(a=F(2), b=F(3), c=F(5), tx=F(1), ty=F(-2), tz=F(4)),
         bounds="box a x b x c at a free offset: 6 free reals; insphere exists iff a = b = c (1 % margin)", paths=(16 if tier == "quick" else 64))
     base = SH.CONVEX["tetra"]
